@@ -132,7 +132,7 @@ def St.parentPlain (s : St) (r : Nat) (t : Task) (p : Nat) (v : Option Nat) (via
 /-- `_on_event` of `waitEvent` -/
 def St.onWaitEvent (s : St) (w e : Nat) : Outcome × St :=
   let ws := s.wait w
-  if !ws.run && (ws.evObj.isNone || ws.evObj == some e) then
+  if !ws.run && !ws.timedOut && (ws.evObj.isNone || ws.evObj == some e) then
     let r := s.removeHandler ws.hEvent (some ws.evName)
     if !r.1 then (.raised, r.2)
     else (.none, (r.2.modEv e fun x => { x with alertDone := true }).modWait w
@@ -143,7 +143,8 @@ def St.onWaitEvent (s : St) (w e : Nat) : Outcome × St :=
 def St.onWaitDone (s : St) (w e : Nat) : Outcome × St :=
   let ws := s.wait w
   let ev := s.ev e
-  if ws.event.isSome && ws.event == ev.parentEv then
+  -- `if state.timed_out: return` : a stale invocation after the time-out does nothing
+  if !ws.timedOut && (ws.event.isSome && ws.event == ev.parentEv) then
     let s1 := (s.modWait w fun x => { x with flag := true }).registerTask ws.owner
                 ⟨ws.taskEvent, ws.task, some ws.parentGen⟩
     if ws.timeout ≥ 0 then
@@ -158,8 +159,12 @@ def St.onWaitDone (s : St) (w e : Nat) : Outcome × St :=
 /-- `_on_tick` of `waitEvent` -/
 def St.onWaitTick (s : St) (w : Nat) : Outcome × St :=
   let ws := s.wait w
-  if ws.timeout == 0 then
-    let s1 := (s.addGen (.exc w false)).registerTask ws.owner ⟨ws.taskEvent, s.gens.length, some ws.parentGen⟩
+  -- `if state.flag or state.timed_out: return` : a stale invocation (handler list computed before this
+  -- handler was removed) does nothing, the outcome is already decided
+  if ws.flag || ws.timedOut then (.none, s)
+  else if ws.timeout == 0 then
+    let s1 := ((s.modWait w fun x => { x with timedOut := true }).addGen (.exc w false)).registerTask ws.owner
+      ⟨ws.taskEvent, s.gens.length, some ws.parentGen⟩
     let r1 := s1.removeHandler ws.hDone (some (ws.evName.child sfxDone))
     if !r1.1 then (.raised, r1.2)
     else
